@@ -1,5 +1,5 @@
 """Registry: which parts make up each property's check (see DESIGN.md section 4)."""
-from vlib import GoBin, GoTest, McPart, RwTest
+from vlib import GoBin, GoTest, McPart, RwTest, TracePart
 
 MC = 'github.com/whawty/auth/internal/verifmc'
 AGENT_RW = {'imports': {
@@ -10,6 +10,8 @@ AGENT_SEQ = {'only_imports': True, 'imports': {'web_session.go': {'time': MC + '
 
 
 ENGINES = [
+    {'name': 'tracefs', 'path': 'tracefs harness/drv harness/oracle', 'serves_properties': ['C03', 'C08', 'C09', 'C15'],
+     'kind_free_text': 'strace-based system-call trace of a driver built from the real code, replayed in a Python file-system persistence model (validated against the real directory); exhaustive crash-state / fault / path enumeration'},
     {'name': 'mc', 'path': 'mc tools/mcrewrite harness/agentmc', 'serves_properties': ['C10', 'C11'],
      'kind_free_text': 'hand-written controlled scheduler + stateless/state-pruned DFS explorer for Go channel code, bound to the real source by an AST rewriter applied through go build -overlay'},
     {'name': 'seqx', 'path': 'harness/c01 harness/c02 harness/c14 harness/c16 harness/c18 harness/x', 'serves_properties': ['C01', 'C02', 'C14', 'C16', 'C18'],
@@ -100,6 +102,22 @@ CHECKS = {
         'text': 'Every interleaving of 2-4 clients x 1-2 operations on overlapping users (Store interface, SASL callback, LDAP bind; upgrades off and local) is executed on the real dispatcher; each complete history must have a sequential order consistent with real time that explains every response and the final store directory.',
         'note': 'Histories of at most 8 operations; channel-level scheduling points; sequential reference model = property statement; data races left to the -race twin.',
         'parts': [McPart('mc', 'C11', 'cmd/whawty-auth', ['harness/agentmc'], AGENT_RW)],
+    },
+    'C08': {
+        'level': 'model_checking',
+        'engine': 'tracefs',
+        'technique': 'system-call trace of the real operation replayed in a file-system persistence model; exhaustive enumeration of process-kill points (incl. torn writes) and power-loss images; recovery oracle = fresh store instance',
+        'text': 'For every history the real add/update/init is traced; at every mutating system call every crash image of both models is generated, deduplicated and judged byte-wise (old-complete / new-complete / absent-or-empty) and by a fresh store.Dir (passwords, consistency check, other users).',
+        'note': 'Standard persistence model (independent loss of un-fsynced directory operations, prefix/torn loss of un-fsynced data, atomic rename); model validated against the real directory at every operation boundary.',
+        'parts': [TracePart('crash', 'c08')],
+    },
+    'C09': {
+        'level': 'model_checking',
+        'engine': 'tracefs',
+        'technique': 'system-call trace replayed in a file-system persistence model; exhaustive enumeration of power-loss images after every acknowledgement',
+        'text': 'One traced history covering init/add/update/set-admin/remove; at every later system call every power-loss image must show every acknowledged operation, observed through a fresh store.Dir.',
+        'note': 'Same persistence model as C08.',
+        'parts': [TracePart('durability', 'c09')],
     },
     'C10': {
         'level': 'model_checking',
